@@ -80,3 +80,39 @@ Proof.
     rewrite ?Ex, ?Ey, ?Ez; try (rewrite Hx || rewrite Hy || rewrite Hz); try ring;
     try (symmetry; assumption); try assumption.
 Qed.
+
+(* ---------------- whole histories under a fixed transform ---------------- *)
+Lemma aff_apply_resolve m p : aff_apply m (resolve p) = aff_apply m p.
+Proof. unfold aff_apply, resolve. cbn [px py pz res1]. reflexivity. Qed.
+
+(* the machine executes the (unrounded) words of one move after the other; the builder tracks the targets *)
+Fixpoint play (s : st) (m : Q * Q * Q) (reqs : list point) : st * (Q * Q * Q) :=
+  match reqs with
+  | [] => (s, m)
+  | p :: rest =>
+      let rel := match dm s with Relative => true | Absolute => false end in
+      let '(mv, tg) := transform_move s p in
+      let '(mx, my, mz) := m in
+      play (set_pos s tg) (exec_axis rel (px mv) mx, exec_axis rel (py mv) my, exec_axis rel (pz mv) mz) rest
+  end.
+
+(* for every affine transform, every start position, either distance mode and EVERY sequence of (partial) requests:
+   a machine that starts at transform(tracked position) is at transform(tracked position) after every move *)
+Theorem history_follows : forall reqs s mx my mz,
+  mx == res1 (px (img s (resolve (pos s)))) -> my == res1 (py (img s (resolve (pos s)))) ->
+  mz == res1 (pz (img s (resolve (pos s)))) ->
+  let '(s', (mx', my', mz')) := play s (mx, my, mz) reqs in
+  mx' == res1 (px (img s' (resolve (pos s')))) /\ my' == res1 (py (img s' (resolve (pos s')))) /\
+  mz' == res1 (pz (img s' (resolve (pos s')))) /\ tf s' = tf s /\ dm s' = dm s.
+Proof.
+  induction reqs as [|p rest IH]; intros s mx my mz Ex Ey Ez; cbn [play]; [repeat split; assumption|].
+  pose proof (machine_follows s p mx my mz) as H. cbn zeta in H.
+  destruct (transform_move s p) as [mv tg]. destruct (H Ex Ey Ez) as (Hx & Hy & Hz).
+  set (rel := match dm s with Relative => true | Absolute => false end) in *.
+  specialize (IH (set_pos s tg) (exec_axis rel (px mv) mx) (exec_axis rel (py mv) my) (exec_axis rel (pz mv) mz)).
+  assert (Ei : img (set_pos s tg) (resolve (pos (set_pos s tg))) = img s tg).
+  { unfold img. cbn [set_pos tf pos]. apply aff_apply_resolve. }
+  rewrite Ei in IH. specialize (IH Hx Hy Hz).
+  destruct (play (set_pos s tg) _ rest) as [s' [[mx' my'] mz']].
+  destruct IH as (A & B & C0 & D & E). repeat split; try assumption.
+Qed.
